@@ -203,6 +203,11 @@ func (pf *Profile) genAction(t *rapid.T, fail bool, gateable bool, isCheck bool)
 	}
 	for i := range script {
 		script[i].Lat = pick(t, []int{0, 0, 0, 1, 2, 3, 4}, "lat")
+		// the attempt that follows an overrun is slow (10 ms) half of the time: the late answer of the timed-out
+		// invocation (0.2-8 ms after its deadline) then arrives while the retry's own plugin call is still executing
+		if i > 0 && script[i-1].Out == Overrun && pct(t, 50, "slowAfterOverrun") {
+			script[i].Lat = 5
+		}
 	}
 	if gateable && pct(t, pf.PGate, "gate") {
 		script[0].Gate = rng(t, 1, 6, "gatePrio")
@@ -325,6 +330,7 @@ func (pf Profile) Gen(t *rapid.T) Scenario {
 	if pf.POverrun > 0 {
 		sc.Timeout5s = true
 	}
+	sc.SwapTypes = pct(t, 25, "swapTypes")
 	if pct(t, 20, "cancelStartCtx") {
 		sc.CancelStartUs = pick(t, []int{-1, 100, 1000, 5000}, "cancelStartUs")
 	}
